@@ -1552,16 +1552,30 @@ def odd_documents_cases(tier):
                                                                                      "multipart/form-data; boundary=x": {"schema": obj({"b": {"type": "string"}})}}},
                                                       "responses": {"200": {"description": "", "content": {"text/plain; charset=utf-8": {"schema": {"type": "string"}}}}}}}}),
     }
+    long_name = "relative_path_of_the_requested_artifact_file_in_the_store"
+    docs["long-placeholders-with-suffixes"] = _base({
+        "/artifacts/{" + long_name + ":path}": {"get": {"parameters": [{"name": long_name, "in": "path", "required": True, "schema": {"type": "string"}}],
+                                                        "responses": ok}},
+        "/a/{" + "x" * 60 + "/b": {"get": {"responses": ok}},
+        "/c/{" + "a.b-c_d" * 8 + "}/{unclosed": {"get": {"responses": ok}}})
     return [{"name": k, "doc": v} for k, v in docs.items()]
 
 
 def odd_documents(case):
+    def handler(signum, frame):
+        raise _Timeout()
+    old = signal.signal(signal.SIGALRM, handler)
+    signal.setitimer(signal.ITIMER_REAL, 30)
     try:
         files, errors = _tree(case["doc"])
+    except _Timeout:
+        return f"generate() did not terminate within 30 s on the legal document {case['name']!r}"
     except BaseException as e:  # noqa
         e = getattr(e, "__cause__", None) or e
         return f"generate() raised {type(e).__name__}: {str(e)[:160]} on the legal document {case['name']!r} instead of returning diagnostics"
-    from .replay import py_syntax_errors
+    finally:
+        signal.setitimer(signal.ITIMER_REAL, 0)
+        signal.signal(signal.SIGALRM, old)
     return None
 
 
